@@ -36,6 +36,11 @@ DEFS = {
    "DESIGN.md 4.2",
    "Colour refinement is isomorphism-invariant (no false alarms on allowed differences) but could equate two non-isomorphic graphs (detection loss only). Pairs where either side raises are skipped.",
    "deterministic simulation: seeded reordering/duplication of sample deliveries vs reference run, canonical-graph equality oracle, structural shrinking"),
+ "C16": ("exploration",
+   "Seeded scenarios (sample sets split over files, lookups, repeated -m/-l, glob patterns; json/yaml/ini; CLI-expressible options) run through the real cli.main() in-process behind simulated seams: scheduled directory-enumeration order, simulated clock (jumps, extreme instants), interposed file objects with an event log. Stdout / -o file after the header must equal the text a small executable reference model of the front end (independent parse + lookup + concatenation in argument order, glob files in observed open order, library pipeline in a pristine fork) returns; -o file must equal the stdout of the same run without -o at the same simulated instant except the command line. Thorough tier cross-checks sampled scenarios against the real CLI subprocess.",
+   "DESIGN.md 4.5",
+   "The reference model encodes my reading of the documented option meanings; option domain restricted accordingly. Sample sets/options are generated workload; the simulated dimensions are enumeration order, clock and file objects.",
+   "deterministic simulation: in-process CLI behind simulated directory order / clock / file seams, differential oracle vs executable reference model of the front end, event-log based ordering check"),
  "C15": ("exploration",
    "Seeded search over thread interleavings: 1-8 independent pipelines on real threads under a baton scheduler that pre-empts at line (and, in the thread-local context code, opcode) events inside repository frames; every thread's outcome must equal the outcome of the same pipeline alone in a pristine process. A clean batch is evidence over the sampled interleavings, not proof.",
    "DESIGN.md 4.4",
